@@ -226,6 +226,17 @@ def run(tier, seed, model_ok):
         trip.append((tid, 'B', vlib.hx('\n'.join(t))))
         exp[tid] = ('macfault', fault.strip(), cands, '\n'.join(t), None)
         kinds['fault inside a macro body (%s%s)' % ('behind a segment switch/.org' if any(x.startswith(('.org', '.dseg', '.eseg', '.cseg')) for x in before) else 'plain body', ', nested call' if nested else '')] += 1
+    # (c4) messages and .error behind an inner construct that was left by skipping, in the LATER arms of the outer chain
+    #      (which is closed): none of them is assembled — no message, no failure
+    for i, (inner, tail) in enumerate([(i_, t_) for i_ in (['.if 0', '  nop', '.endif'], ['.ifdef never_defined', '  .message "in"', '.endif'], ['.if 0', '.elif 0', '.endif'])
+                                       for t_ in (['.elif 1', '  .message "dead"', '  .error "dead"', '.else', '  .warning "dead else"', '.endif'],
+                                                  ['.elif 0', '  .message "dead"', '.else', '  .error "dead else"', '.endif'],
+                                                  ['.elif c15_nosuch', '  .message "dead"', '.elif 1', '  .warning "dead 2"', '.endif'])]):
+        t = ['  nop', '.if 1', '  .message "live"'] + inner + tail + ['  .message "after"', '  ret']
+        tid = 'w%d' % i
+        trip.append((tid, 'B', vlib.hx('\n'.join(t))))
+        exp[tid] = ('fixedmsgs', ['info: live in line: 3', 'info: after in line: %d' % (len(t) - 1)], '\n'.join(t))
+        kinds['messages behind an inner construct left by skipping'] += 1
     # (c2) the same message line assembled several times in a row (a macro called repeatedly): every time counts
     for i in range(6 if tier == 'quick' else 40):
         reps = rng.randrange(2, 5)
@@ -330,6 +341,13 @@ def run(tier, seed, model_ok):
                 vio.append({'what': 'a program whose only fault is a line inside a called macro body builds', 'faulty_line': fault, 'line': cands, 'source': text, 'impl': got[:120], 'expected': want, 'key': 'fault-in-macro-body'})
             elif got.split()[1] not in ['line=%d' % x for x in cands]:
                 vio.append({'what': 'the error for a faulty line inside a macro body names neither that line nor a call', 'faulty_line': fault, 'line': cands, 'source': text, 'impl': got[:120], 'expected': want, 'key': 'fault-in-macro-body'})
+            continue
+        if e[0] == 'fixedmsgs':
+            _, want, text = e
+            m = got.split(' msgs=')[1] if got.startswith('OK') else None
+            gotl = None if m is None else ([] if m == '-' else bytes.fromhex(m).decode().split('\n'))
+            if gotl != want:
+                vio.append({'what': 'lines of unassembled branches took effect (messages / failure)', 'source': text, 'impl': gotl if gotl is not None else got[:120], 'expected': want, 'key': 'dead-branch-messages'})
             continue
         if e[0] == 'repeat':
             _, count, kind, text, _ = e
